@@ -166,4 +166,31 @@ def run(ctx):
             else:
                 res.fail(Finding("R-MODE.D", key + "/wrong-kind", "deviation '%s' is refused with kind %s" % (row["id"], kind), f, c.term["span"]))
     res.floor("deviations located", located, ctx.table("floors").get("mode_deviations", 0))
+    # data that a tolerated deviation discards: nothing may refuse the file on their account first
+    nign = 0
+    for row in tbl.get("ignored_data", []):
+        f = ctx.fx.fns.get(row["function"])
+        if f is None:
+            res.gone.append(row["id"])
+            continue
+        v = view(ctx, f)
+        pr = Prov(f)
+        g = guards(ctx, f)
+        for bb, c in sorted(v.calls.items()):
+            t = c.term
+            if t["dest"]["proj"] or not f.locals[t["dest"]["local"]]["s"].startswith("std::result::Result<"):
+                continue
+            if c.name.endswith("as std::ops::Try>::branch") or "FromResidual" in c.name:
+                continue
+            if not any(re.search(row["datum"], pr.operand(a)) for a in t["args"]):
+                continue
+            if v.disp(bb)["kind"] not in ("try", "returned", "matched"):
+                continue
+            nign += 1
+            atoms = g.atoms_at(("t", bb))
+            if any(atoms_match(rx, atoms) for rx in row["unless"]):
+                res.ok({"ignored_datum": row["id"], "function": f.path, "check": c.name.split("::")[-1], "line": c.line, "guard": [a for a in atoms if any(atoms_match(rx, [a]) for rx in row["unless"])][:1]}, nontrivial=True)
+            else:
+                res.fail(Finding("R-MODE.I", "R-MODE/ignored-datum/%s/%s" % (row["id"], c.name.split("::")[-1]), "%s: %s (line %d) can refuse the file on account of it with none of the excluding conditions on the path (%s)" % (row["why"], c.name.split("::")[-1], c.line, "; ".join(a[:60] for a in atoms[:4]) or "no conditions"), f, t["span"]))
+    res.floor("checks on discarded data", nign, ctx.table("floors").get("mode_ignored", 0))
     return res
